@@ -7,6 +7,7 @@ pub(crate) mod model;
 pub(crate) mod ops;
 pub(crate) mod runner;
 pub(crate) mod world;
+pub(crate) mod ibc_stub;
 
 use serde::{
     Deserialize,
